@@ -367,6 +367,7 @@ impl Clone for CompiledLookahead {
 }
 ''', label='trusted: derived Clone of CompiledLookahead is structural'),
         RawFile('../common/dfa_wf.rs'),
+        RawFile('../common/dfa_match.rs'),
         RawFile('spec.rs'),
         RawFile('../common/blen_lemmas.rs'),
         RawFile('unique_lemmas.rs'),
